@@ -56,6 +56,7 @@ mod misc {
         story_state::StoryState,
         value::Value,
     };
+
     use rand::{RngExt, SeedableRng, rngs::StdRng};
     use std::{collections::HashMap, rc::Rc};
 
@@ -144,7 +145,15 @@ mod misc {
                     ));
                 };
 
-            let seq_container = self.get_state().get_current_pointer().container.unwrap();
+            let seq_container = self
+                .get_state()
+                .get_current_pointer()
+                .container
+                .ok_or_else(|| {
+                    StoryError::InvalidStoryState(
+                        "Shuffle index requested outside of a container.".to_owned(),
+                    )
+                })?;
 
             let seq_count = if let Some(v) =
                 Value::get_value::<i32>(self.get_state_mut().pop_evaluation_stack()?.as_ref())
